@@ -326,6 +326,9 @@ func execute(t *testing.T, p *Plan, trace bool, out *Outcome) {
 		}
 		if trace {
 			out.Trace = s.Events
+			if dbg := os.Getenv("VERIF_TRACE_DEBUG"); dbg != "" {
+				os.WriteFile(dbg+"."+p.Variant, []byte(strings.Join(s.Events, "\n")), 0o644)
+			}
 		}
 		if len(out.Violations) > 0 || trace {
 			pc := *p
